@@ -36,6 +36,10 @@ type vconn struct {
 	closed bool
 	closes int
 	reads  int
+	// hold, if non-nil: when the input is exhausted Read blocks until the
+	// channel is closed (by Close or by the harness = the peer going away)
+	hold     chan struct{}
+	holdDone bool
 	// script, if set, is called when the input is exhausted (a lock-step
 	// client): it may append to in and return true to continue.
 	script func(c *vconn) bool
@@ -55,6 +59,12 @@ func (c *vconn) Read(b []byte) (int, error) {
 	}
 	if c.pos >= len(c.in) && c.script != nil {
 		for c.pos >= len(c.in) && c.script(c) {
+		}
+	}
+	if c.pos >= len(c.in) && c.hold != nil {
+		<-c.hold
+		if c.closed {
+			return 0, net.ErrClosed
 		}
 	}
 	if c.pos >= len(c.in) {
@@ -91,7 +101,16 @@ func (c *vconn) Write(b []byte) (int, error) {
 func (c *vconn) Close() error {
 	c.closes++
 	c.closed = true
+	c.release()
 	return nil
+}
+
+// release unblocks a held Read (peer went away / connection closed).
+func (c *vconn) release() {
+	if c.hold != nil && !c.holdDone {
+		c.holdDone = true
+		close(c.hold)
+	}
 }
 func (c *vconn) LocalAddr() net.Addr                { return verifAddr{} }
 func (c *vconn) RemoteAddr() net.Addr               { return verifAddr{} }
